@@ -97,7 +97,7 @@ func (s *Sim) installW2Oracles() {
 	s.hookReceivedQuery = m.onReceivedQueryC
 	s.pointActions["stage.receive.full"] = m.onCompleteC
 	s.stepHooks = append(s.stepHooks, m.checkCompanionsC)
-	s.finalHooks = append(s.finalHooks, m.final)
+	s.finalHooks = append(s.finalHooks, m.final, s.c04w2Final)
 	if s.on("C14") {
 		m.before = s.outsideSnapshot(s.sc.Send.Name)
 	}
